@@ -26,7 +26,8 @@ def generic_stream(name, cmd, prefix, prop, ctx, fingerprint_of=None, sample_n=3
         body = parts[1] if len(parts) > 1 else ""
         # the death of the process inside a case of this property's stream counts for this property:
         # whatever the property promises about the operations of that case was not delivered
-        if parts[0] != prop and not ctx.get("all_props") and not body.startswith("process-abort"):
+        # … and so does a fault (a debug assertion or checked unchecked-operation firing inside the library)
+        if parts[0] != prop and not ctx.get("all_props") and not body.startswith("process-abort") and not body.startswith("fault-in-"):
             continue
         fp = body.split(" :: ")[0] if " :: " in body else (fingerprint_of(body) if fingerprint_of else body[:80])
         res["I"].append({"stream": name, "fingerprint": fp.replace(" ", "_"), "what": body, "ops_file": prefix + ".ops"})
@@ -243,6 +244,36 @@ def conc_stream(which, klass=0, scen_fn=None, tag="c"):
     return run
 
 
+def big_stream(prop):
+    """Implementation-only stream of very long strings (up to 9 MiB; sizes around every block capacity on the
+    way): property oracles and block audit, no model comparison (the driver does not replay megabytes)."""
+    def run(ctx):
+        name = "seq-big"
+        prefix = os.path.join(ctx["work"], f"big-{ctx['seed']}")
+        res = {"name": name, "I": [], "M": [], "stats": {}, "samples": []}
+        tier = "thorough" if (ctx["tier"] == "thorough" or ctx.get("search")) else "quick"
+        for ext in ("ops", "impl", "oracle", "stats"):
+            try:
+                os.remove(f"{prefix}.{ext}")
+            except FileNotFoundError:
+                pass
+        rc, out = sh([os.path.join(BIN, "seq"), "big", tier, str(ctx["seed"]), prefix], timeout=3600)
+        res["stats"] = read_json(prefix + ".stats", {}) or {}
+        if rc != 0:
+            res["M"].append({"kind": "harness run", "what": f"{name}: harness exited with {rc}", "log": out[-500:]})
+            return res
+        for line in read_lines(prefix + ".oracle"):
+            parts = line.split(" ", 1)
+            body = parts[1] if len(parts) > 1 else ""
+            if parts[0] != prop and not body.startswith("process-abort") and not body.startswith("fault-in-"):
+                continue
+            fp = body.split(" :: ")[0]
+            res["I"].append({"stream": "seq:big", "fingerprint": fp.replace(" ", "_"), "what": body, "ops_file": prefix + ".ops"})
+        return res
+    run.__name__ = "seq_big"
+    return run
+
+
 def stress_stream(which, scale=1.0):
     """Uncontrolled multi-thread runs (no hooks installed). Oracle failures only; a search aid, not a proof.
     `which` names the stress mode (c03: interning protocol, c05: storage, c09: budget)."""
@@ -281,7 +312,7 @@ import probes
 
 PROPS = {
     "C01": {
-        "streams": [seq_stream("core", "C01"), seq_stream("views", "C01"), conc_stream("C01"), stress_stream("C03"), stress_stream("C05", 0.5)],
+        "streams": [seq_stream("core", "C01"), seq_stream("views", "C01"), conc_stream("C01"), stress_stream("C03"), stress_stream("C05", 0.5), big_stream("C01")],
         "trusted_base": SEQ_TRUST,
         "assumptions": ["concurrent interner: one-thread semantics here; schedules are C03/C05"],
     },
@@ -296,7 +327,7 @@ PROPS = {
         "assumptions": [],
     },
     "C08": {
-        "streams": [seq_stream("mem", "C08"), seq_stream("clone", "C08")],
+        "streams": [seq_stream("mem", "C08"), seq_stream("clone", "C08"), big_stream("C08")],
         "trusted_base": SEQ_TRUST,
         "assumptions": [],
     },
@@ -316,7 +347,7 @@ PROPS = {
         "assumptions": [],
     },
     "C04": {
-        "streams": [seq_stream("mem", "C04"), seq_stream("clone", "C04"), seq_stream("views", "C04"), stress_stream("C05", 0.5)],
+        "streams": [seq_stream("mem", "C04"), seq_stream("clone", "C04"), seq_stream("views", "C04"), stress_stream("C05", 0.5), big_stream("C04")],
         "trusted_base": SEQ_TRUST + ["Drop/free-exactly-once is not modelled: checked on the real code by the counting allocator of the harness"],
         "assumptions": ["use of freed memory by safe user code is C20; concurrent regions are C05"],
     },
